@@ -8,7 +8,21 @@ new handler), further events, a final restart and an audit of all files.
  * oracle         : the property text evaluated on the files (no model involved)
  * correspondence : model/YLog.v evaluated inside Coq on the same history must give the same
                     (file list, per-line classification, open tail, size, next seq, exits)
-                    after every event; plus the callback inventory (ast walk) against the model's.
+                    after every event; plus the callback inventory (ast walk) against the model's;
+                    plus the octet-level start-up of the model (newest_line: last line of the
+                    newest file that has an octet) against the text the code really hands to
+                    json.loads / eval, on directories whose last line has up to 10^6 octets.
+
+RECORD-SIZE DIMENSION.  A payload id is an index into PAYLOADS or ['sz', L]: a payload built at the
+moment of the call so that the record line (newline included) has exactly L octets.  L ranges from
+the smallest possible record (47 octets) over 100, 4000, every power of two from 512 to 65536 +-1
+(4095/4096/4097, ...), 5000, 20000, 70000 (thorough: up to 2^20+1), i.e. well beyond a BGP message
+and beyond any plausible read-block size.  Sized records appear (a) in the random histories,
+(b) in dedicated histories: restart right after / one event after the huge record, only huge
+records, rotation thresholds below, at and above the record, a crash that tears the huge record at
+offsets next to every block boundary counted from its end, a crash before/after a small record
+that follows the huge one, (c) as seeded directories.  The octet count of every line is part of
+every generated case (Ev .. sz) and of the compared observation (file sizes).
 
 Code version the model is instantiated with: cfg_fixed (build/proposed/c20-scan-back.diff and
 c20-serialise-first.diff applied to the repo).  Development aid only: C20_CODE=orig compares the
@@ -75,6 +89,45 @@ GOOD = [i for i, p in enumerate(PAYLOADS) if p[0]]
 BAD = [i for i, p in enumerate(PAYLOADS) if not p[0]]
 
 
+# record sizes (octets of the line, newline included).  BLOCKS: read-block sizes an implementation
+# might plausibly use; every one is bracketed by L = B-1, B, B+1
+BLOCKS = [512, 1024, 2048, 4096, 8192, 16384, 32768, 65536]
+SIZES_QUICK = [1, 100, 4000, 4095, 4096, 4097, 5000, 8193, 20000, 65537, 70000]
+SIZES_THOROUGH = sorted(set(SIZES_QUICK + [b + d for b in BLOCKS for d in (-1, 0, 1)] +
+                            [6000, 12000, 33000, 100000, 131073, 262145, (1 << 20) + 1]))
+EXPLICIT_TS = ('send_open', 'open_received', 'update_received', 'on_update_error')
+
+
+def is_sized(pid):
+    return isinstance(pid, (list, tuple))
+
+
+def sized_payload(dumps, ts, seq, ty, target):
+    """a serialisable payload such that the line json(record)+newline has exactly `target` octets
+    (the smallest possible record if target is below it): an UPDATE announcing as many /24 as fit,
+    padded to the octet; a plain string when the target is below the UPDATE skeleton"""
+    def line_len(p):
+        return len(dumps({'t': ts, 'seq': seq, 'type': ty, 'msg': p})) + 1
+    p = {'attr': {1: 0, 2: [[2, [65001, 65002]]], 3: '10.0.0.1'}, 'nlri': [], 'withdraw': [], 'pad': ''}
+    base = line_len(p)
+    if target < base:
+        return 'x' * max(target - line_len(''), 0)
+    room = target - base
+    nl = []
+    i = 0
+    while True:
+        pre = '10.%d.%d.0/24' % ((i // 256) % 256, i % 256)
+        cost = len(pre) + 2 + (2 if nl else 0)
+        if cost > room:
+            break
+        nl.append(pre)
+        room -= cost
+        i += 1
+    p['nlri'] = nl
+    p['pad'] = 'x' * room
+    return p
+
+
 def norm(v):
     """what a serialisable payload must read back as"""
     if isinstance(v, bytes):
@@ -121,6 +174,26 @@ class Peer(object):
 
 
 _setup_done = {}
+SIZED = {'exact': 0, 'other': 0, 'lengths': set()}
+PARSED = []        # what get_last_seq_and_file handed to json.loads (1, text) / eval (2, text)
+
+
+class JsonRec(object):
+    """the handler module's `json`, recording the argument of loads"""
+    def __init__(self, real):
+        self._real = real
+
+    def loads(self, text, *a, **kw):
+        PARSED.append((1, text))
+        return self._real.loads(text, *a, **kw)
+
+    def __getattr__(self, name):
+        return getattr(self._real, name)
+
+
+def _eval(text, *a):
+    PARSED.append((2, text))
+    return eval(text, *a)
 
 
 def setup():
@@ -129,6 +202,8 @@ def setup():
     env.init_conf()
     from yabgp.handler import default_handler as dh
     dh.time = CLOCK
+    dh.json = JsonRec(dh.json)
+    dh.eval = _eval                      # module global shadows the builtin
     _setup_done['dh'] = dh
     return dh
 
@@ -174,6 +249,8 @@ class World(object):
         self.flags = set()         # input classes met: 'torn', 'ser', 'rot'
         self.problems = []         # per-event oracle failures
         self.pending = None
+        self.parsed = []
+        self.maxline = 0           # longest line written (octets)
         if files is not None:
             os.makedirs(self.msgdir)
             for name, data in files.items():
@@ -198,12 +275,15 @@ class World(object):
         if self.newest_empty_older_not():
             self.flags.add('rot')
         h = self.dh.DefaultHandler()
+        del PARSED[:]
         try:
             h.init()
         except SystemExit:
             self.exits += 1
             self.h = None
             return
+        finally:
+            self.parsed = list(PARSED)
         self.h = h
 
     def kill(self):
@@ -243,18 +323,28 @@ class World(object):
     def invoke(self, cb, pid, wk, no_rotation=False):
         """run one callback on the live handler; returns (sz, expected record without seq)"""
         h = self.h
-        payload = None if cb in NO_PAYLOAD else PAYLOADS[pid][1]
-        ok = True if cb in NO_PAYLOAD else PAYLOADS[pid][0]
+        ts = 1234.5
+        bc = self.dh.bgp_cons
+        rr = 5 if is_sized(pid) or not pid % 2 else 128
+        tys = {'send_open': 1, 'open_received': 1, 'update_received': bc.MSG_UPDATE, 'on_update_error': 6,
+               'keepalive_received': 4, 'route_refresh_received': rr, 'notification_received': 3,
+               'on_connection_lost': bc.MSG_BGP_CLOSED, 'on_connection_failed': 0}
+        if cb in NO_PAYLOAD:
+            payload, ok = None, True
+        elif is_sized(pid):
+            payload = sized_payload(self.dh.json.dumps, ts if cb in EXPLICIT_TS else CLOCK.now + 1.0,
+                                    h.msg_sequence[PEER], tys[cb], pid[1])
+            ok = True
+        else:
+            ok, payload = PAYLOADS[pid]
         if cb == 'keepalive_received':
             self.conf(write_keepalive=wk)
         cur = self.cur_file()
         before = os.path.getsize(cur)
         calls0 = FSYNC['calls']
-        ts = 1234.5
         if no_rotation:
             h.check_file_size = lambda peer: False      # the process dies before it gets there
         p = Peer()
-        bc = self.dh.bgp_cons
         if cb == 'send_open':
             h.send_open(p, ts, payload); ty = 1
         elif cb == 'open_received':
@@ -266,7 +356,7 @@ class World(object):
         elif cb == 'keepalive_received':
             h.keepalive_received(p, ts); ty = 4
         elif cb == 'route_refresh_received':
-            h.route_refresh_received(p, payload, 128 if pid % 2 else 5); ty = 128 if pid % 2 else 5
+            h.route_refresh_received(p, payload, rr); ty = rr
         elif cb == 'notification_received':
             h.notification_received(p, payload); ty = 3
         elif cb == 'on_connection_lost':
@@ -282,6 +372,10 @@ class World(object):
             del h.check_file_size
         sz = os.path.getsize(cur) - before
         wrote = sz > 0
+        self.maxline = max(self.maxline, sz)
+        if is_sized(pid) and wrote:
+            SIZED['exact' if sz == pid[1] else 'other'] += 1      # 'other': target below the smallest record
+            SIZED['lengths'].add(sz)
         # assumption (fsync): flush + fsync once per line, with the whole line in the file by then
         if wrote and (FSYNC['calls'] != calls0 + 1 or FSYNC['sizes'][-1] != before + sz):
             self.problems.append('write_msg did not flush+fsync the line before returning')
